@@ -37,6 +37,47 @@ through the read path, the `None` check dropped or moved behind the store) makes
 /-- a `None` result raises AttributeError and nothing is stored -/
 @[simp] theorem noneOutcome_gen (i : Inst) (n : Name) (s : State) : noneOutcome i n s = (s, .attrErr) := rfl
 
+/-- the mark is discarded on every way out of `HookFunction.__call__` - also when the function raised - unless the call was
+a cycled one (`if not cycle:` in the `finally` clause) -/
+@[simp] theorem discards_gen (cyc failed : Bool) : discards cyc failed = !cyc := by
+  cases cyc <;> cases failed <;> rfl
+
+theorem leave_gen (st : State) (cyc failed : Bool) (k : Id) (i : Inst) :
+    st.leave cyc failed k i = if cyc then st else { st with active := st.active.erase (k, i) } := by
+  cases cyc <;> simp [State.leave]
+
+/-- `Hook.functions_gen` yields the plain implementations store by store: tryfirst, normal, trylast -/
+@[simp] theorem tierOrder_gen : tierOrder = [0, 1, 2] := by decide
+
+/-- per store: the classes of the MRO in order, the registrations of a class latest first -/
+theorem tierRegs_gen (st : State) (c : Cls) (n : Name) (t : Nat) :
+    tierRegs st c n t =
+      (st.mro c).flatMap fun k => (st.regs.filter fun r => r.cls == k && r.hook == n && r.tier == t).reverse := rfl
+
+theorem order_gen (st : State) (c : Cls) (n : Name) :
+    order st c n = tierRegs st c n 0 ++ (tierRegs st c n 1 ++ tierRegs st c n 2) := by
+  simp [order]
+
+/-- `add_function(f, tryfirst, trylast)`: tryfirst wins over trylast -/
+theorem tierOfFlags_gen (first last : Bool) :
+    tierOfFlags first last = if first then 0 else if last then 2 else 1 := by
+  cases first <;> cases last <;> rfl
+
+/-- `remove_function(hf)` removes exactly the registration object `hf`, whatever store it is in -/
+@[simp] theorem removes_gen (r : Reg) (key : Id) : removes r key = (r.key == key) := by
+  unfold removes
+  have h : Gen.C02.Extra.removeStores.contains (storeName r.tier) = true := by
+    rcases ht : r.tier with _ | _ | t <;> simp [storeName] <;> decide
+  rw [h]
+  have h2 : (Gen.C02.Extra.removeMatches == "func") = true := by decide
+  rw [h2]; simp
+
+/-- the `root_hooks` list API as read from the source -/
+@[simp] theorem rootAdd_gen {α : Type} [DecidableEq α] (x : α) (l : List α) : rootAdd x l = l ++ [x] := rfl
+@[simp] theorem rootRemove_gen {α : Type} [DecidableEq α] (x : α) (l : List α) : rootRemove x l = removeLastOcc x l := rfl
+@[simp] theorem insertBeforeShift_gen : Gen.C02.Extra.insertBeforeShift = 0 := rfl
+@[simp] theorem insertAfterShift_gen : Gen.C02.Extra.insertAfterShift = 1 := rfl
+
 /-! ### python `dict` primitives -/
 
 theorem lookup_put_self {α : Type} (n : Name) (v : α) (l : List (Name × α)) : lookup n (put n v l) = some v := by
@@ -216,6 +257,78 @@ theorem Pres.trans {a b c : State} (h1 : Pres a b) (h2 : Pres b c) : Pres a c :=
 
 theorem Pres.log (st : State) (id : Id) : Pres st (st.log id) := ⟨Same.log st id, fun _ => rfl, fun _ _ _ h => h⟩
 
+/-! the executing marks are no part of `Same` / `Pres`: setting and removing a mark changes nothing else -/
+
+@[simp] theorem enter_obj (s : State) (k : Id) (i : Inst) : (s.enter k i).obj = s.obj := by
+  unfold State.enter; split <;> rfl
+@[simp] theorem enter_n (s : State) (k : Id) (i : Inst) : (s.enter k i).n = s.n := by
+  unfold State.enter; split <;> rfl
+@[simp] theorem enter_mro (s : State) (k : Id) (i : Inst) : (s.enter k i).mro = s.mro := by
+  unfold State.enter; split <;> rfl
+@[simp] theorem enter_regs (s : State) (k : Id) (i : Inst) : (s.enter k i).regs = s.regs := by
+  unfold State.enter; split <;> rfl
+@[simp] theorem enter_roots (s : State) (k : Id) (i : Inst) : (s.enter k i).roots = s.roots := by
+  unfold State.enter; split <;> rfl
+@[simp] theorem enter_trace (s : State) (k : Id) (i : Inst) : (s.enter k i).trace = s.trace := by
+  unfold State.enter; split <;> rfl
+@[simp] theorem leave_obj (s : State) (cyc failed : Bool) (k : Id) (i : Inst) : (s.leave cyc failed k i).obj = s.obj := by
+  unfold State.leave; split <;> rfl
+@[simp] theorem leave_n (s : State) (cyc failed : Bool) (k : Id) (i : Inst) : (s.leave cyc failed k i).n = s.n := by
+  unfold State.leave; split <;> rfl
+@[simp] theorem leave_mro (s : State) (cyc failed : Bool) (k : Id) (i : Inst) : (s.leave cyc failed k i).mro = s.mro := by
+  unfold State.leave; split <;> rfl
+@[simp] theorem leave_regs (s : State) (cyc failed : Bool) (k : Id) (i : Inst) : (s.leave cyc failed k i).regs = s.regs := by
+  unfold State.leave; split <;> rfl
+@[simp] theorem leave_roots (s : State) (cyc failed : Bool) (k : Id) (i : Inst) :
+    (s.leave cyc failed k i).roots = s.roots := by
+  unfold State.leave; split <;> rfl
+@[simp] theorem leave_trace (s : State) (cyc failed : Bool) (k : Id) (i : Inst) :
+    (s.leave cyc failed k i).trace = s.trace := by
+  unfold State.leave; split <;> rfl
+
+theorem Pres.ofEq {st s : State} (hn : s.n = st.n) (hm : s.mro = st.mro) (hr : s.regs = st.regs)
+    (hro : s.roots = st.roots) (ho : s.obj = st.obj) (ht : s.trace = st.trace) : Pres st s where
+  n := hn
+  mro := hm
+  regs := hr
+  roots := hro
+  cls j := by rw [ho]
+  fb j := by rw [ho]
+  keysPrefix j := by rw [ho]; exact List.prefix_refl _
+  nodup h := by rw [ho]; exact h
+  trace := ⟨[], by rw [ht]; simp⟩
+  dict j := by rw [ho]
+  cacheMono j m v h := by rw [ho]; exact h
+
+theorem Pres.enter (s : State) (k : Id) (i : Inst) : Pres s (s.enter k i) :=
+  Pres.ofEq (enter_n ..) (enter_mro ..) (enter_regs ..) (enter_roots ..) (enter_obj ..) (enter_trace ..)
+
+theorem Pres.leave (s : State) (cyc failed : Bool) (k : Id) (i : Inst) : Pres s (s.leave cyc failed k i) :=
+  Pres.ofEq (leave_n ..) (leave_mro ..) (leave_regs ..) (leave_roots ..) (leave_obj ..) (leave_trace ..)
+
+/-- mark set, leaf function run (state unchanged), mark removed: the state is as before -/
+theorem leave_enter_log (st : State) (id k : Id) (i : Inst) (failed : Bool) :
+    ((st.log id).enter k i).leave (st.marked k i) failed k i = st.log id := by
+  rw [leave_gen]
+  unfold State.enter
+  have hm : (st.log id).marked k i = st.marked k i := rfl
+  rw [hm]
+  cases st.marked k i
+  · simp
+  · simp
+
+/-- mark set, function run, mark removed: the marks are as before (`cycle` is computed before the mark is set) -/
+theorem leave_enter (s : State) (k : Id) (i : Inst) (failed : Bool)
+    (s1 : State) (h1 : s1.active = (s.enter k i).active) :
+    (s1.leave (s.marked k i) failed k i).active = s.active := by
+  rw [leave_gen]
+  unfold State.enter at h1
+  cases hm : s.marked k i
+  · simp only [hm] at h1 ⊢
+    simp [h1]
+  · simp only [hm] at h1 ⊢
+    simpa using h1
+
 /-- storing a computed value under a name that held no VALUE before -/
 theorem Pres.remember {st s : State} (h : Pres st s) (i : Inst) (n : Name) (x : Option Val)
     (hn : ∀ w, lookup n (st.obj i).cache ≠ some (some w)) : Pres st (s.remember i n x) where
@@ -270,14 +383,17 @@ theorem ev_pres : ∀ (f : Nat) (st : State) (t : Task), Pres st (ev f st t).1 :
       | nil => simp only [ev]; exact Pres.refl st
       | cons r rs =>
         simp only [ev]
-        have h1 := (Pres.log st r.id).trans (ih (st.log r.id) (.body i r.body))
+        have h1 := ((Pres.log st r.id).trans (Pres.enter _ r.key i)).trans
+          (ih ((st.log r.id).enter r.key i) (.body i (r.body.under (st.marked r.key i))))
         split
-        · next h => rw [h] at h1; exact h1.trans (ih _ _)
-        all_goals (next h => rw [h] at h1; exact h1)
+        · next h => rw [h] at h1; exact (h1.trans (Pres.leave _ _ _ _ _)).trans (ih _ _)
+        all_goals (next h => rw [h] at h1; exact h1.trans (Pres.leave _ _ _ _ _))
     | body i b =>
       cases b with
       | const v => simp only [ev]; exact Pres.refl st
       | none => simp only [ev]; exact Pres.refl st
+      | cread m k c => simp only [ev]; exact ih _ _
+      | ctry m k c => simp only [ev]; exact ih _ _
       | read m k c => simp only [ev]; exact Pres.combine (ih _ _)
       | tryRead m k c =>
         simp only [ev]
@@ -333,14 +449,17 @@ theorem ev_frame : ∀ (f : Nat) (st : State) (t : Task) (j : Inst), j ≠ t.ins
       | nil => simp only [ev]
       | cons r rs =>
         simp only [ev]
-        have h1 := ih (st.log r.id) (.body i r.body) j hj
+        have h1 := ih ((st.log r.id).enter r.key i) (.body i (r.body.under (st.marked r.key i))) j hj
+        rw [enter_obj] at h1
         split
-        · next h => rw [h] at h1; rw [ih _ (.chain i rs) j hj]; exact h1
-        all_goals (next h => rw [h] at h1; exact h1)
+        · next h => rw [h] at h1; rw [ih _ (.chain i rs) j hj, leave_obj]; exact h1
+        all_goals (next h => rw [h] at h1; simp only [leave_obj]; exact h1)
     | body i b =>
       cases b with
       | const v => simp only [ev]
       | none => simp only [ev]
+      | cread m k c => simp only [ev]; exact ih st (.body i (.read m k c)) j hj
+      | ctry m k c => simp only [ev]; exact ih st (.body i (.tryRead m k c)) j hj
       | read m k c => simp only [ev]; rw [combine_obj]; exact ih st (.get i m) j hj
       | tryRead m k c =>
         simp only [ev]
@@ -391,14 +510,14 @@ theorem ev_succ : ∀ (f : Nat) (st : State) (t : Task), (ev f st t).2 ≠ .fuel
       | cons r rs =>
         simp only [ev] at h
         rw [ev]; conv => rhs; rw [ev]
-        have hb : (ev f (st.log r.id) (.body i r.body)).2 ≠ .fuelOut := by
+        have hb : (ev f ((st.log r.id).enter r.key i) (.body i (r.body.under (st.marked r.key i)))).2 ≠ .fuelOut := by
           intro hc
-          generalize ev f (st.log r.id) (.body i r.body) = x at h hc
-          obtain ⟨s, r⟩ := x; simp only at hc; subst hc; simp at h
+          generalize ev f ((st.log r.id).enter r.key i) (.body i (r.body.under (st.marked r.key i))) = x at h hc
+          obtain ⟨s, q⟩ := x; simp only at hc; subst hc; simp at h
         rw [ih _ _ hb]
-        generalize ev f (st.log r.id) (.body i r.body) = x at h hb
-        obtain ⟨s, r⟩ := x
-        cases r
+        generalize ev f ((st.log r.id).enter r.key i) (.body i (r.body.under (st.marked r.key i))) = x at h hb
+        obtain ⟨s, q⟩ := x
+        cases q
         · rfl
         · simp only at h ⊢; exact ih _ _ h
         all_goals rfl
@@ -406,6 +525,14 @@ theorem ev_succ : ∀ (f : Nat) (st : State) (t : Task), (ev f st t).2 ≠ .fuel
       cases b with
       | const v => simp only [ev]
       | none => simp only [ev]
+      | cread m k c =>
+        simp only [ev] at h
+        rw [ev]; conv => rhs; rw [ev]
+        exact ih _ _ h
+      | ctry m k c =>
+        simp only [ev] at h
+        rw [ev]; conv => rhs; rw [ev]
+        exact ih _ _ h
       | read m k c =>
         simp only [ev] at h
         rw [ev]; conv => rhs; rw [ev]
@@ -467,9 +594,27 @@ theorem reevalLoop_pres (fuel : Nat) (i : Inst) : ∀ (names : List Name) (st : 
     · next h => rw [h] at h1; exact (h1.remember n _).trans (ih _)
     all_goals (next h => rw [h] at h1; exact h1)
 
+theorem tierRegs_congr {st s : State} (h : Same st s) (j : Inst) (n : Name) (t : Nat) :
+    tierRegs s (s.obj j).cls n t = tierRegs st (st.obj j).cls n t := by
+  simp only [tierRegs, h.mro, h.regs, h.cls]
+
 theorem order_congr {st s : State} (h : Same st s) (j : Inst) (n : Name) :
     order s (s.obj j).cls n = order st (st.obj j).cls n := by
-  simp only [order, h.mro, h.regs, h.cls]
+  unfold order
+  congr 1
+  funext t
+  exact tierRegs_congr h j n t
+
+theorem mem_tierRegs {st : State} {c : Cls} {n : Name} {t : Nat} {r : Reg} (h : r ∈ tierRegs st c n t) : r ∈ st.regs := by
+  simp only [tierRegs_gen, List.mem_flatMap, List.mem_reverse, List.mem_filter] at h
+  obtain ⟨_, _, hr, _⟩ := h
+  exact hr
+
+/-- the resolution order lists registrations of the registry only -/
+theorem mem_order_regs {st : State} {c : Cls} {n : Name} {r : Reg} (h : r ∈ order st c n) : r ∈ st.regs := by
+  simp only [order, List.mem_flatMap] at h
+  obtain ⟨_, _, hr⟩ := h
+  exact mem_tierRegs hr
 
 /-- the loop over a concatenated list of names: first the front part, then (when that succeeded) the rest -/
 theorem reevalLoop_append (fuel : Nat) (i : Inst) : ∀ (pre post : List Name) (st : State),
@@ -616,13 +761,18 @@ theorem chain_leaf (i : Inst) : ∀ (rs : List Reg) (f : Nat) (st : State), (∀
     have ih' := ih (f + 1) (st.log r.id) (fun r' h' => hl r' (by simp [h'])) (by simp at hf ⊢; omega)
     rw [ev]
     cases hb : r.body with
-    | const v => simp [ev, invoked, firstConst, hb, Res.ofOpt, State.log]
+    | const v =>
+      simp only [Body.under, ev]
+      rw [leave_enter_log]
+      simp [invoked, firstConst, hb, Res.ofOpt, State.log]
     | none =>
-      simp only [ev]
-      rw [ih']
+      simp only [Body.under, ev]
+      rw [leave_enter_log, ih']
       simp [invoked, firstConst, hb, State.log]
     | read m k c => simp [hb, Body.isLeaf] at hr
     | tryRead m k c => simp [hb, Body.isLeaf] at hr
+    | cread m k c => simp [hb, Body.isLeaf] at hr
+    | ctry m k c => simp [hb, Body.isLeaf] at hr
 
 theorem lookup_remember_ne (s : State) (i : Inst) {m n : Name} (h : m ≠ n) (x : Option Val) :
     lookup m ((s.remember i n x).obj i).cache = lookup m (s.obj i).cache := by
@@ -644,9 +794,7 @@ theorem reevalLoop_leaf (fuel : Nat) (i : Inst) : ∀ (names : List Name) (st : 
     intro st hleaf hfuel hsub
     have hord : ∀ r ∈ order st (st.obj i).cls n, r.body.isLeaf = true := by
       intro r hr
-      simp only [order, List.mem_flatMap, List.mem_reverse, List.mem_filter] at hr
-      obtain ⟨_, _, hr, _⟩ := hr
-      exact hleaf r hr
+      exact hleaf r (mem_order_regs hr)
     have hch := chain_leaf i (order st (st.obj i).cls n) fuel st hord (hfuel n)
     -- the state in which the rest of the loop runs
     generalize hfc : firstConst (order st (st.obj i).cls n) = x at hch
@@ -666,7 +814,11 @@ theorem reevalLoop_leaf (fuel : Nat) (i : Inst) : ∀ (names : List Name) (st : 
     have hcls : (s'.obj i).cls = (st.obj i).cls := by
       rw [← hs']; simp [State.remember, State.setObj, hs0obj]
     have hordeq : ∀ m, order s' (s'.obj i).cls m = order st (st.obj i).cls m := by
-      intro m; simp only [order, hcls]; rw [← hs']; simp only [State.remember, State.setObj, hs0mro, hs0regs]
+      intro m
+      have hmro : s'.mro = st.mro := by rw [← hs']; simp only [State.remember, State.setObj, hs0mro]
+      have hregs : s'.regs = st.regs := by rw [← hs']; simp only [State.remember, State.setObj, hs0regs]
+      unfold order; congr 1; funext t
+      simp only [tierRegs, hcls, hmro, hregs]
     have hleaf' : ∀ r ∈ s'.regs, r.body.isLeaf = true := by
       rw [← hs']; simpa only [State.remember, State.setObj, hs0regs] using hleaf
     obtain ⟨fin, h1, h2, h3, h4⟩ := ih s' hleaf' (by intro m; rw [hordeq]; exact hfuel m)
@@ -976,6 +1128,9 @@ theorem step_n_mono (fuel : Nat) (st : State) (op : Op) : st.n ≤ (step fuel st
     split <;> (next h' => rw [h'] at h; simp only; rw [h]; exact Nat.le_refl _)
   | newInst c => simp [step, State.setObj]
   | handOver i c => simp [step, State.setObj]
+  | rootInsertBefore p e => simp only [step]; split <;> exact Nat.le_refl _
+  | rootInsertAfter p e => simp only [step]; split <;> exact Nat.le_refl _
+  | rootRemoveLast e => simp only [step]; split <;> exact Nat.le_refl _
   | _ => simp [step, State.setObj, State.assign]
 
 /-- the explicit value `(i, n)` of an existing instance changes only through an operation that may set it -/
@@ -1031,6 +1186,11 @@ theorem step_dict_stable (fuel : Nat) (st : State) (op : Op) (i : Inst) (n : Nam
     · rw [setObj_other _ _ _ _ hj]
   | handOver j c =>
     simp only [step, reeval_gen]; rw [setObj_other _ _ _ _ (Nat.ne_of_lt hi)]
+  | addReg key fn c m b first last => simp [step]
+  | rootAdd e => simp [step]
+  | rootInsertBefore p e => simp only [step]; split <;> rfl
+  | rootInsertAfter p e => simp only [step]; split <;> rfl
+  | rootRemoveLast e => simp only [step]; split <;> rfl
 
 /-- a plain explicit value of an existing instance that nobody assigns or deletes by hand stays a plain explicit value
 (root evaluation may replace it by the new plain value) -/
@@ -1091,6 +1251,11 @@ theorem step_cache_stable (fuel : Nat) (st : State) (op : Op) (i : Inst) (n : Na
     · subst hj; rw [setObj_self]; exact hc
     · rw [setObj_other _ _ _ _ hj]; exact hc
   | handOver j c => simp only [step, reeval_gen]; rw [setObj_other _ _ _ _ (Nat.ne_of_lt hi)]; exact hc
+  | addReg key fn c m b first last => simpa [step] using hc
+  | rootAdd e => simpa [step] using hc
+  | rootInsertBefore p e => simp only [step]; split <;> exact hc
+  | rootInsertAfter p e => simp only [step]; split <;> exact hc
+  | rootRemoveLast e => simp only [step]; split <;> exact hc
 
 /-! ### independence of instances -/
 
@@ -1163,6 +1328,11 @@ theorem step_frame (fuel : Nat) (st : State) (op : Op) (i : Inst) (hi : i < st.n
   | evalRoot j => simp only [step, reeval_gen]; exact rootLoop_frame fuel j i (ne j rfl) _ _ _ (hfb j rfl)
   | setFallback j k => simp only [step, reeval_gen]; exact setObj_other _ _ _ _ (ne j rfl)
   | handOver j c => simp only [step, reeval_gen]; rw [setObj_other _ _ _ _ (Nat.ne_of_lt hi)]
+  | addReg key fn c m b first last => simp [step]
+  | rootAdd e => simp [step]
+  | rootInsertBefore p e => simp only [step]; split <;> rfl
+  | rootInsertAfter p e => simp only [step]; split <;> rfl
+  | rootRemoveLast e => simp only [step]; split <;> rfl
 
 /-! ### reading the loops off a `step` -/
 
@@ -1237,5 +1407,414 @@ theorem step_nodup (fuel : Nat) (st : State) (op : Op) (h : ∀ j, (keys (st.obj
   | evalRoot i => simp only [step, reeval_gen]; exact (rootLoop_pres _ _ _ _ _).nodup h0
   | setFallback i k => simp only [step, reeval_gen]; exact hset _ _ _ h0 (h i)
   | handOver i c => simp only [step, reeval_gen]; exact hset _ _ _ h0 (by simp [keys])
+  | addReg key fn c n b first last => simpa [step] using h
+  | rootAdd e => simpa [step] using h
+  | rootInsertBefore p e => simp only [step]; split <;> exact h
+  | rootInsertAfter p e => simp only [step]; split <;> exact h
+  | rootRemoveLast e => simp only [step]; split <;> exact h
+
+
+/-! ### executing marks: every evaluation - finished, failed or out of fuel - leaves them as they were -/
+
+theorem finishGet_active (i : Inst) (n : Name) (x : State × Res) : (finishGet i n x).1.active = x.1.active := by
+  obtain ⟨s, r⟩ := x
+  cases r <;> simp [finishGet, State.remember, State.setObj]
+
+/-- **`try … finally`**: whatever an evaluation task does - return a value, return `None`, raise AttributeError / TypeError,
+run out of fuel (RecursionError) - the set of executing marks afterwards is the set before. -/
+theorem ev_active : ∀ (f : Nat) (st : State) (t : Task), (ev f st t).1.active = st.active := by
+  intro f
+  induction f with
+  | zero => intro st t; simp only [ev]
+  | succ f ih =>
+    intro st t
+    cases t with
+    | get i n =>
+      simp only [ev]
+      split
+      · rfl
+      · rfl
+      · exact ih (st.log _) _
+      · rfl
+      · exact ih _ _
+      · exact ih _ _
+    | unset i n =>
+      simp only [ev]
+      split
+      · rfl
+      · rw [finishGet_active]; exact ih _ _
+      · rw [finishGet_active]; exact ih _ _
+    | chain i rs =>
+      cases rs with
+      | nil => simp only [ev]
+      | cons r rs =>
+        simp only [ev]
+        have h1 := ih ((st.log r.id).enter r.key i) (.body i (r.body.under (st.marked r.key i)))
+        split
+        · next s1 h => rw [h] at h1; rw [ih]; exact leave_enter (st.log r.id) r.key i false s1 h1
+        · next s1 v h => rw [h] at h1; exact leave_enter (st.log r.id) r.key i false s1 h1
+        all_goals (next s1 h => rw [h] at h1; exact leave_enter (st.log r.id) r.key i true s1 h1)
+    | body i b =>
+      cases b with
+      | const v => simp only [ev]
+      | none => simp only [ev]
+      | cread m k c => simp only [ev]; exact ih _ _
+      | ctry m k c => simp only [ev]; exact ih _ _
+      | read m k c => simp only [ev]; rw [combine_obj]; exact ih _ _
+      | tryRead m k c =>
+        simp only [ev]
+        have h1 := ih st (.get i m)
+        split
+        · next h => rw [h] at h1; exact h1
+        · next h => rw [h] at h1; rw [combine_obj, ih]; exact h1
+        · next h => rw [h] at h1; rw [combine_obj, ih]; exact h1
+        · next h => rw [h] at h1; exact h1
+        · next h => rw [h] at h1; exact h1
+
+theorem reevalLoop_active (fuel : Nat) (i : Inst) : ∀ (names : List Name) (st : State),
+    (reevalLoop fuel i st names).1.active = st.active := by
+  intro names
+  induction names with
+  | nil => intro st; rfl
+  | cons n ns ih =>
+    intro st
+    simp only [reevalLoop]
+    have h1 := ev_active fuel st (.chain i (order st (st.obj i).cls n))
+    split
+    · next h => rw [h] at h1; rw [ih]; exact h1
+    · next h => rw [h] at h1; rw [ih]; exact h1
+    all_goals (next h => rw [h] at h1; exact h1)
+
+theorem fallback_active (fuel : Nat) (st : State) (i : Inst) (n : Name) : (fallback fuel st i n).1.active = st.active := by
+  simp only [fallback]
+  split
+  · rfl
+  · next j _ =>
+    have h := ev_active fuel st (.get j n)
+    split
+    · next h' => rw [h'] at h; exact h
+    · exact h
+
+theorem rootLoop_active (fuel : Nat) (i : Inst) : ∀ (roots : List (Cls × Name)) (st : State) (acc : List Val),
+    (rootLoop fuel i st roots acc).1.active = st.active := by
+  intro roots
+  induction roots with
+  | nil => intro st acc; rfl
+  | cons e rs ih =>
+    intro st acc
+    obtain ⟨c, n⟩ := e
+    simp only [rootLoop]
+    split
+    · have h1 := ev_active fuel st (.chain i (order st (st.obj i).cls n))
+      split
+      · next h => rw [h] at h1; rw [ih]; exact h1
+      · next st1 h =>
+        rw [h] at h1
+        have h2 := fallback_active fuel st1 i n
+        split
+        · next h' => rw [h'] at h2; rw [ih]; exact h2.trans h1
+        all_goals (next h' => rw [h'] at h2; exact h2.trans h1)
+      all_goals (next h => rw [h] at h1; exact h1)
+    · exact ih _ _
+
+/-- no operation - whatever its outcome - leaves an executing mark behind or removes one -/
+theorem step_active (fuel : Nat) (st : State) (op : Op) : (step fuel st op).1.active = st.active := by
+  cases op with
+  | read i n => simp only [step]; exact ev_active _ _ _
+  | reevaluate i => simp only [step, reeval_gen]; exact reevalLoop_active _ _ _ _
+  | evalRoot i => simp only [step]; exact rootLoop_active _ _ _ _ _
+  | hasValue i n =>
+    simp only [step]
+    have h := ev_active fuel { st with trace := [] } (.get i n)
+    split <;> (next h' => rw [h'] at h; exact h)
+  | rootInsertBefore p e => simp only [step]; split <;> rfl
+  | rootInsertAfter p e => simp only [step]; split <;> rfl
+  | rootRemoveLast e => simp only [step]; split <;> rfl
+  | _ => simp [step, State.setObj, State.assign]
+
+theorem run_active (fuel : Nat) (ops : List Op) : ∀ st : State, (run fuel st ops).active = st.active := by
+  induction ops with
+  | nil => intro st; rfl
+  | cons op ops ih => intro st; rw [run_cons, ih, step_active]
+
+/-! ### registrations: a multiset of registration objects -/
+
+/-- with distinct registration keys, filtering one key out is erasing exactly that one registration -/
+theorem filter_key_erase : ∀ (l : List Reg) (r : Reg), (l.map (·.key)).Nodup → r ∈ l →
+    l.filter (fun x => !(x.key == r.key)) = l.erase r := by
+  intro l
+  induction l with
+  | nil => intro r _ h; simp at h
+  | cons x l ih =>
+    intro r hnd hr
+    simp only [List.map_cons, List.nodup_cons] at hnd
+    by_cases hx : x = r
+    · subst hx
+      have : l.filter (fun y => !(y.key == x.key)) = l := by
+        apply List.filter_eq_self.mpr
+        intro y hy
+        have : y.key ≠ x.key := fun e => hnd.1 (by rw [← e]; exact List.mem_map_of_mem hy)
+        simp [this]
+      simp [this]
+    · have hr' : r ∈ l := by
+        rcases List.mem_cons.1 hr with h | h
+        · exact absurd h.symm hx
+        · exact h
+      have hk : x.key ≠ r.key := fun e => hnd.1 (by rw [e]; exact List.mem_map_of_mem hr')
+      have hxr : (x == r) = false := by simp [hx]
+      simp [hk, List.erase_cons, hxr, ih r hnd.2 hr']
+
+theorem step_regs_other (fuel : Nat) (st : State) (op : Op)
+    (h : ∀ id c n b, op ≠ .addImpl id c n b) (h2 : ∀ k, op ≠ .removeImpl k)
+    (h3 : ∀ k f c n b x y, op ≠ .addReg k f c n b x y) : (step fuel st op).1.regs = st.regs := by
+  cases op with
+  | read i n => simp only [step]; exact (ev_pres _ _ _).regs
+  | reevaluate i => simp only [step, reeval_gen]; exact (reevalLoop_pres _ _ _ _).regs
+  | evalRoot i => simp only [step]; exact (rootLoop_pres _ _ _ _ _).regs
+  | hasValue i n =>
+    simp only [step]
+    have hh := (ev_pres fuel { st with trace := [] } (.get i n)).regs
+    split <;> (next h' => rw [h'] at hh; exact hh)
+  | rootInsertBefore p e => simp only [step]; split <;> rfl
+  | rootInsertAfter p e => simp only [step]; split <;> rfl
+  | rootRemoveLast e => simp only [step]; split <;> rfl
+  | addImpl id c n b => exact absurd rfl (h id c n b)
+  | removeImpl k => exact absurd rfl (h2 k)
+  | addReg k f c n b x y => exact absurd rfl (h3 k f c n b x y)
+  | _ => simp [step, State.setObj, State.assign]
+
+/-! ### the `root_hooks` list -/
+
+theorem idxOf_split {α : Type} [DecidableEq α] (p : α) : ∀ (l : List α) (k : Nat), idxOf p l = some k →
+    ∃ pre post, l = pre ++ p :: post ∧ p ∉ pre ∧ pre.length = k := by
+  intro l
+  induction l with
+  | nil => intro k h; simp [idxOf] at h
+  | cons x l ih =>
+    intro k h
+    simp only [idxOf] at h
+    by_cases hx : x = p
+    · subst hx
+      simp at h
+      exact ⟨[], l, rfl, by simp, by simpa using h⟩
+    · simp only [hx, if_false, Option.map_eq_some_iff] at h
+      obtain ⟨k', hk', rfl⟩ := h
+      obtain ⟨pre, post, h1, h2, h3⟩ := ih k' hk'
+      refine ⟨x :: pre, post, by rw [h1]; rfl, ?_, by simp [h3]⟩
+      simp only [List.mem_cons, not_or]
+      exact ⟨fun e => hx e.symm, h2⟩
+
+theorem idxOf_none {α : Type} [DecidableEq α] (p : α) : ∀ (l : List α), idxOf p l = none ↔ p ∉ l := by
+  intro l
+  induction l with
+  | nil => simp [idxOf]
+  | cons x l ih =>
+    simp only [idxOf, List.mem_cons, not_or]
+    by_cases hx : x = p
+    · simp [hx]
+    · simp only [hx, if_false, Option.map_eq_none_iff, ih]
+      constructor
+      · intro h; exact ⟨fun e => hx e.symm, h⟩
+      · intro h; exact h.2
+
+theorem insertAt_append {α : Type} (x : α) (s : Nat) : ∀ (pre rest : List α),
+    insertAt x (pre.length + s) (pre ++ rest) = pre ++ insertAt x s rest := by
+  intro pre
+  induction pre with
+  | nil => intro rest; simp
+  | cons y pre ih =>
+    intro rest
+    have : (y :: pre).length + s = (pre.length + s) + 1 := by simp; omega
+    rw [this]
+    simp only [List.cons_append, insertAt]
+    rw [ih]
+
+theorem removeLastOcc_none {α : Type} [DecidableEq α] (x : α) : ∀ (l : List α), removeLastOcc x l = none ↔ x ∉ l := by
+  intro l
+  induction l with
+  | nil => simp [removeLastOcc]
+  | cons y l ih =>
+    simp only [removeLastOcc, List.mem_cons, not_or]
+    cases h : removeLastOcc x l with
+    | some l' =>
+      have : x ∈ l := Decidable.byContradiction fun hc => by
+        rw [(ih).2 hc] at h; cases h
+      simp [this]
+    | none =>
+      have hx := ih.1 h
+      by_cases hy : y = x
+      · simp [hy]
+      · simp only [hy, if_false, true_iff]
+        exact ⟨fun e => hy e.symm, hx⟩
+
+theorem removeLastOcc_split {α : Type} [DecidableEq α] (x : α) : ∀ (l l' : List α), removeLastOcc x l = some l' →
+    ∃ pre post, l = pre ++ x :: post ∧ x ∉ post ∧ l' = pre ++ post := by
+  intro l
+  induction l with
+  | nil => intro l' h; simp [removeLastOcc] at h
+  | cons y l ih =>
+    intro l' h
+    simp only [removeLastOcc] at h
+    cases hr : removeLastOcc x l with
+    | some l2 =>
+      rw [hr] at h
+      simp only [Option.some.injEq] at h
+      obtain ⟨pre, post, h1, h2, h3⟩ := ih l2 hr
+      exact ⟨y :: pre, post, by rw [h1]; rfl, h2, by rw [← h, h3]; rfl⟩
+    | none =>
+      rw [hr] at h
+      have hx := (removeLastOcc_none x l).1 hr
+      by_cases hy : y = x
+      · subst hy
+        simp only [if_true, Option.some.injEq] at h
+        exact ⟨[], l, rfl, hx, by rw [← h]; rfl⟩
+      · simp [hy] at h
+
+/-- the root loop over a concatenated list: first the front part, then - when that went through - the rest, in the state
+and with the outputs the front part left -/
+theorem rootLoop_append (fuel : Nat) (i : Inst) : ∀ (l1 l2 : List (Cls × Name)) (st : State) (acc : List Val),
+    rootLoop fuel i st (l1 ++ l2) acc =
+      match rootLoop fuel i st l1 acc with
+      | (s, .none, a) => rootLoop fuel i s l2 a
+      | x => x := by
+  intro l1
+  induction l1 with
+  | nil => intro l2 st acc; simp [rootLoop]
+  | cons e rs ih =>
+    intro l2 st acc
+    obtain ⟨c, n⟩ := e
+    simp only [List.cons_append, rootLoop]
+    split
+    · split
+      · exact ih _ _ _
+      · split
+        · exact ih _ _ _
+        all_goals rfl
+      all_goals rfl
+    · exact ih _ _ _
+
+/-- a finished root loop ends with `None` or an error, never with a value -/
+theorem rootLoop_res (fuel : Nat) (i : Inst) : ∀ (roots : List (Cls × Name)) (st : State) (acc : List Val) (v : Val),
+    (rootLoop fuel i st roots acc).2.1 ≠ .val v := by
+  intro roots
+  induction roots with
+  | nil => intro st acc v; simp [rootLoop]
+  | cons e rs ih =>
+    intro st acc v
+    obtain ⟨c, n⟩ := e
+    simp only [rootLoop]
+    split
+    · split
+      · exact ih _ _ _
+      · split
+        · exact ih _ _ _
+        all_goals simp
+      all_goals simp
+    · exact ih _ _ _
+
+
+/-! ### membership in the resolution order; histories and the registry -/
+
+theorem mem_order_iff (st : State) (c : Cls) (n : Name) (r : Reg) :
+    r ∈ order st c n ↔ r ∈ st.regs ∧ r.cls ∈ st.mro c ∧ r.hook = n ∧ r.tier ≤ 2 := by
+  simp only [order_gen, tierRegs_gen, List.mem_append, List.mem_flatMap, List.mem_reverse, List.mem_filter,
+    Bool.and_eq_true, beq_iff_eq]
+  constructor
+  · rintro (⟨k, hk, hr, ⟨h1, h2⟩, h3⟩ | ⟨k, hk, hr, ⟨h1, h2⟩, h3⟩ | ⟨k, hk, hr, ⟨h1, h2⟩, h3⟩) <;>
+      exact ⟨hr, by rw [h1]; exact hk, h2, by omega⟩
+  · rintro ⟨hr, hc, hn, ht⟩
+    have : r.tier = 0 ∨ r.tier = 1 ∨ r.tier = 2 := by omega
+    rcases this with h | h | h
+    · exact Or.inl ⟨r.cls, hc, hr, ⟨rfl, hn⟩, h⟩
+    · exact Or.inr (Or.inl ⟨r.cls, hc, hr, ⟨rfl, hn⟩, h⟩)
+    · exact Or.inr (Or.inr ⟨r.cls, hc, hr, ⟨rfl, hn⟩, h⟩)
+
+/-- does the operation register or remove an implementation? -/
+def Op.editsRegistry : Op → Bool
+  | .addImpl _ _ _ _ | .removeImpl _ | .addReg _ _ _ _ _ _ _ => true
+  | _ => false
+
+theorem step_regs_stable (fuel : Nat) (st : State) (op : Op) (h : op.editsRegistry = false) :
+    (step fuel st op).1.regs = st.regs := by
+  apply step_regs_other
+  · intro id c n b e; subst e; simp [Op.editsRegistry] at h
+  · intro k e; subst e; simp [Op.editsRegistry] at h
+  · intro k f c n b x y e; subst e; simp [Op.editsRegistry] at h
+
+theorem run_regs_stable (fuel : Nat) (ops : List Op) : ∀ st : State, (∀ op ∈ ops, op.editsRegistry = false) →
+    (run fuel st ops).regs = st.regs := by
+  induction ops with
+  | nil => intro st _; rfl
+  | cons op ops ih =>
+    intro st h
+    rw [run_cons, ih _ (fun o ho => h o (by simp [ho])), step_regs_stable _ _ _ (h op (by simp))]
+
+/-- the registration key an operation introduces -/
+def Op.newKey : Op → Option Id
+  | .addImpl id _ _ _ => some id
+  | .addReg key _ _ _ _ _ _ => some key
+  | _ => none
+
+/-- every registration of the history uses a key that was not used before (`HookFunction` objects are distinct) -/
+def freshKeys (used : List Id) : List Op → Bool
+  | [] => true
+  | op :: ops =>
+    match op.newKey with
+    | some k => !used.contains k && freshKeys (k :: used) ops
+    | none => freshKeys used ops
+
+theorem step_keys (fuel : Nat) (st : State) (op : Op) (used : List Id)
+    (hu : ∀ r ∈ st.regs, r.key ∈ used) (hnd : (st.regs.map (·.key)).Nodup) :
+    match op.newKey with
+    | some k => k ∉ used → ((step fuel st op).1.regs.map (·.key)).Nodup ∧ ∀ r ∈ (step fuel st op).1.regs, r.key ∈ k :: used
+    | none => ((step fuel st op).1.regs.map (·.key)).Nodup ∧ ∀ r ∈ (step fuel st op).1.regs, r.key ∈ used := by
+  have hadd : ∀ (k : Id) (r : Reg), r.key = k → k ∉ used →
+      ((st.regs ++ [r]).map (·.key)).Nodup ∧ ∀ x ∈ st.regs ++ [r], x.key ∈ k :: used := by
+    intro k r hk hfresh
+    constructor
+    · rw [List.map_append, List.nodup_append]
+      refine ⟨hnd, by simp, ?_⟩
+      intro a ha b hb
+      simp only [List.map_cons, List.map_nil, List.mem_singleton] at hb
+      subst hb
+      obtain ⟨x, hx, rfl⟩ := List.mem_map.1 ha
+      intro e
+      exact hfresh (by rw [← hk, ← e]; exact hu x hx)
+    · intro x hx
+      rcases List.mem_append.1 hx with h | h
+      · exact List.mem_cons_of_mem _ (hu x h)
+      · simp only [List.mem_singleton] at h; subst h; rw [hk]; exact List.mem_cons_self
+  cases op with
+  | addImpl id c n b => simp only [Op.newKey, step]; intro hf; exact hadd id _ rfl hf
+  | addReg key fn c n b first last => simp only [Op.newKey, step]; intro hf; exact hadd key _ rfl hf
+  | removeImpl k =>
+    simp only [Op.newKey, step]
+    constructor
+    · exact (List.filter_sublist.map _).nodup hnd
+    · intro r hr; exact hu r (List.mem_filter.1 hr).1
+  | _ =>
+    simp only [Op.newKey]
+    rw [step_regs_stable _ _ _ (by simp [Op.editsRegistry])]
+    exact ⟨hnd, hu⟩
+
+theorem run_keys (fuel : Nat) (ops : List Op) : ∀ (st : State) (used : List Id),
+    (∀ r ∈ st.regs, r.key ∈ used) → (st.regs.map (·.key)).Nodup → freshKeys used ops = true →
+    ((run fuel st ops).regs.map (·.key)).Nodup := by
+  induction ops with
+  | nil => intro st used _ h _; exact h
+  | cons op ops ih =>
+    intro st used hu hnd hf
+    rw [run_cons]
+    have hs := step_keys fuel st op used hu hnd
+    simp only [freshKeys] at hf
+    cases hk : op.newKey with
+    | some k =>
+      rw [hk] at hs hf
+      simp only [Bool.and_eq_true, Bool.not_eq_true', List.contains_eq_mem, decide_eq_false_iff_not] at hf
+      obtain ⟨h1, h2⟩ := hs hf.1
+      exact ih _ (k :: used) h2 h1 hf.2
+    | none =>
+      rw [hk] at hs hf
+      exact ih _ used hs.2 hs.1 hf
 
 end Life
